@@ -142,8 +142,9 @@ S_Rel == /\ spc = "rel" /\ spc' = "sel"
 Select == IF Bad(sargs) THEN /\ spc' = "sel2" /\ srs' = srs
           ELSE /\ spc' = "rep" /\ srs' = Rs(sargs)
 
+\* entering select(): EBADF is raised at once, otherwise the thread waits for readiness (one more scheduling point)
 S_Sel == /\ spc = "sel"
-         /\ IF Bad(sargs) \/ Rs(sargs) # "none" THEN Select ELSE (spc' = "insel" /\ srs' = srs)
+         /\ spc' = (IF Bad(sargs) THEN "sel2" ELSE "insel") /\ srs' = srs
          /\ UNCHANGED <<lpc, args, closing, waker, queue, reg, ready, fclosed, sargs, cur, tok, ops, isclosed>>
 
 S_InSel == /\ spc = "insel" /\ (Bad(sargs) \/ Rs(sargs) # "none") /\ Select
